@@ -124,65 +124,9 @@ theorem malformed_offer_rejected (s : State σ ρ) (k : Key) (version : Option S
 
 /-! ## lookups -/
 
-/-- operations that cannot change what is cached for `k` while it holds version `v`: anything on
-    another key, lookups, re-offers of `v` itself, malformed offers, deletes naming another version -/
-def Quiet (k : Key) (v : String) : Op σ → Prop
-  | .offer k' version _ _ => k' ≠ k ∨ version = some v ∨ validMeta k' version = false
-  | .delete k' version => k' ≠ k ∨ ∃ w, version = some w ∧ w ≠ "" ∧ w ≠ v
-  | .lookup _ => True
-  | .systemData _ => True
-
-theorem quiet_step (s : State σ ρ) (k : Key) (v : String) (e : Entry σ ρ) (op : Op σ)
-    (hq : Quiet k v op) (hc : find? s.cache k = some e) (hver : e.version = v) :
-    find? (step prep s op).1.cache k = some e := by
-  cases op with
-  | offer k' version spec sys =>
-    simp only [step]
-    split
-    · rename_i hm
-      obtain ⟨hk', w, hw, hw'⟩ := (validMeta_iff k' version).mp hm
-      subst hw
-      rcases hq with hne | heq | hbad
-      · cases hf : find? s.cache k' with
-        | none => simp [hne, hc]
-        | some e' =>
-          simp only []
-          split
-          · exact hc
-          · simp [hne, hc]
-      · by_cases hkk : k' = k
-        · subst hkk
-          cases heq
-          simp [hc, hver]
-        · cases hf : find? s.cache k' with
-          | none => simp [hkk, hc]
-          | some e' =>
-            simp only []
-            split
-            · exact hc
-            · simp [hkk, hc]
-      · rw [hm] at hbad; cases hbad
-    · exact hc
-  | delete k' version =>
-    simp only [step]
-    cases hf : find? s.cache k' with
-    | none => exact hc
-    | some e' =>
-      simp only []
-      rcases hq with hne | ⟨w, hw, hw1, hw2⟩
-      · split
-        · exact hc
-        · simp [hne, hc]
-      · subst hw
-        by_cases hkk : k' = k
-        · subst hkk
-          rw [hc] at hf; cases hf
-          simp [truthy, hw1, hver, hw2, hc]
-        · split
-          · exact hc
-          · simp [hkk, hc]
-  | lookup k' => exact hc
-  | systemData k' => exact hc
+/-! `Quiet k v op` (in `Koreo/Cache.lean`): `op` cannot change what is cached for `k` while it holds
+    version `v` — anything on another key, lookups, re-offers of `v` itself, malformed offers, deletes
+    naming another (non-empty) version. -/
 
 /-- Lookups return the result for the most recently offered version: after an offer of (`k`, `v`),
     and any further operations that do not offer another version of `k` nor delete it, both lookups
